@@ -456,11 +456,13 @@ func execC13once(w *c13W, x *Exec) *Outcome {
 					if len(b) < w.BatchSize {
 						simrt.Probe("batch flushed below size (timeout or end)")
 					}
+					if w.ConsDelayUs > 0 {
+						// a consumer that is slow because it works on the batch: it
+						// still holds the batch while the batcher fills the next ones
+						time.Sleep(time.Duration(w.ConsDelayUs) * time.Microsecond)
+					}
 					for _, e := range b {
 						got = append(got, e.ID)
-					}
-					if w.ConsDelayUs > 0 {
-						time.Sleep(time.Duration(w.ConsDelayUs) * time.Microsecond)
 					}
 				}
 				closed, inputDoneAtClose = true, inputDone
